@@ -343,7 +343,7 @@ SOFTWARE.
 #if defined(FASTOR_AVX512F_IMPL)
 #if defined(FASTOR_INTEL)
     #define FASTOR_HAS_AVX512_ABS 1
-#elif defined (FASTOR_GCC) && __GNUC__ >= 7 && __GNUC_MINOR__ >= 4
+#elif defined (FASTOR_GCC) && (__GNUC__ > 7 || (__GNUC__ == 7 && __GNUC_MINOR__ >= 4))
     #define FASTOR_HAS_AVX512_ABS 1
 #elif defined (FASTOR_GCC) && __clang_major__ >= 4
     #define FASTOR_HAS_AVX512_ABS 1
